@@ -38,6 +38,42 @@ var scaleFactors = func() []*big.Int {
 	}
 }()
 
+// Targets inside the machine-word window: amounts below 2^64 whose product with a small numerator
+// is not (10^18, 2^62+1, 2^63-25, 2^64-1). The multiplier is chosen per case so that
+// m*D + amt is the largest such amount <= target.
+var windowTargets = func() []*big.Int {
+	mk := func(s string) *big.Int { n, _ := new(big.Int).SetString(s, 10); return n }
+	return []*big.Int{
+		mk("1000000000000000000"),  // 10^18
+		mk("4611686018427387905"),  // 2^62+1
+		mk("9223372036854775783"),  // 2^63-25
+		mk("18446744073709551615"), // 2^64-1
+	}
+}()
+
+type Multiplier struct {
+	M     *big.Int
+	Label string // unit | scaled | window
+}
+
+// Multipliers of the scaling lemma Allocate(ps, m*D + r) = m*nums + Allocate(ps, r) used on real code.
+func Multipliers(D, amt int) []Multiplier {
+	var out []Multiplier
+	for _, M := range scaleFactors {
+		l := "scaled"
+		if M.Cmp(big.NewInt(1)) == 0 {
+			l = "unit"
+		}
+		out = append(out, Multiplier{M: new(big.Int).Sub(M, big.NewInt(1)), Label: l})
+	}
+	for _, T := range windowTargets {
+		m := new(big.Int).Sub(T, big.NewInt(int64(amt)))
+		m.Div(m, big.NewInt(int64(D)))
+		out = append(out, Multiplier{M: m, Label: "window"})
+	}
+	return out
+}
+
 func realAllocate(ps []Port, amount *big.Int) (parts []*big.Int, err error, panicMsg string) {
 	defer func() {
 		if p := recover(); p != nil {
@@ -73,9 +109,9 @@ func EvalAllot(idx int, c *AllotCase) AllotResult {
 	add := func(kind, f string, a ...any) {
 		res.Disagreements = append(res.Disagreements, Disagreement{Kind: kind, Detail: fmt.Sprintf(f, a...)})
 	}
-	for _, M := range scaleFactors {
-		// amount = (M-1)*D + amt ; expected parts = (M-1)*nums + parts   (M = 1: the enumerated case itself)
-		m1 := new(big.Int).Sub(M, big.NewInt(1))
+	for _, sc := range Multipliers(c.D, c.Amt) {
+		// amount = m*D + amt ; expected parts = m*nums + parts   (m = 0: the enumerated case itself)
+		m1 := sc.M
 		amount := new(big.Int).Add(new(big.Int).Mul(m1, big.NewInt(int64(c.D))), big.NewInt(int64(c.Amt)))
 		got, err, pm := realAllocate(c.Ports, amount)
 		res.Evaluations++
@@ -98,11 +134,7 @@ func EvalAllot(idx int, c *AllotCase) AllotResult {
 				want.Add(want, big.NewInt(1))
 			}
 			if got[i].Cmp(want) != 0 {
-				scale := "unit"
-				if M.Cmp(big.NewInt(1)) != 0 {
-					scale = "scaled"
-				}
-				add("alloc/part/"+scale, "portions %v amount %s: part %d is %s, spec prescribes %s (all real parts %v)", c.Ports, amount, i+1, got[i], want, got)
+				add("alloc/part/"+sc.Label, "portions %v amount %s: part %d is %s, spec prescribes %s (all real parts %v)", c.Ports, amount, i+1, got[i], want, got)
 			}
 			sum.Add(sum, got[i])
 		}
